@@ -372,6 +372,14 @@ func c04Oracle(c *Case, impl string) *Viol {
 	switch tag {
 	case "SAME":
 		return nil
+	}
+	if c04Outside[key] && (tag == "DIFF" || tag == "JSERR") {
+		// a program OUTSIDE the common subset (by the wording of the property): the backends are expected to
+		// differ; observing the difference shows that the comparison is sensitive, it is not a violation.
+		c04Skipped["outside-subset divergence observed: "+key]++
+		return nil
+	}
+	switch tag {
 	case "DIFF":
 		return &Viol{Key: key, What: fmt.Sprintf("C04: Go renders %.200q, the generated JavaScript returns %.200q [%s]", a, b, c.Note), Want: "SAME"}
 	case "JSERR":
@@ -395,6 +403,10 @@ func c04Oracle(c *Case, impl string) *Viol {
 		return nil
 	}
 }
+
+// hand cases outside the subset the property quantifies over: ill-typed operands (string and/or, mixed-type
+// equality), an integer beyond 2^53, printing a list.
+var c04Outside = map[string]bool{"c04:print-list": true, "c04:mixed-equality": true, "c04:int-overflow-2^53": true, "c04:and-or-value": true, "c04:switch-mixed": true}
 
 type c04Hand struct {
 	key, src, data string
@@ -434,7 +446,8 @@ var c04Hands = []c04Hand{
 	{"c04:switch-mixed", "{namespace h}\n/** @param i */\n{template .t}{switch $i}{case '1'}S{case 1}I{default}D{/switch}{/template}\n", `{"i":1}`},
 	{"c04:plural-float", "{namespace h}\n/** @param n */\n{template .t}{msg desc=\"\"}{plural $n}{case 1}one{default}{$n} many{/plural}{/msg}{/template}\n", `{"n":1}`},
 	{"c04:ok:call-data", "{namespace h}\n/** @param m\n @param s */\n{template .t}{call .u data=\"$m\"}{param b}<{$s}>{/param}{/call}{call .u data=\"all\"}{param a: 9 /}{param b: $s /}{/call}{/template}\n/** @param a\n @param b */\n{template .u}{$a}:{$b};{/template}\n", `{"m":{"a":1,"b":2},"s":"x&y","a":5}`},
-	{"c04:ok:loops", "{namespace h}\n/** @param l */\n{template .t}{foreach $a in $l}{foreach $b in $l}{$a}{$b}{if isFirst($b)}F{/if}{if isLast($a)}L{/if}{index($b)}{ifempty}E{/foreach}|{ifempty}none{/foreach}{for $i in range(1, 7, 2)}{$i}{/for}{/template}\n", `{"l":[1,2,3]}`},
+	{"c04:loopfunc-of-outer-loop", "{namespace h}\n/** @param l */\n{template .t}{foreach $a in $l}{foreach $b in $l}{if isLast($a)}L{/if}{index($a)}{/foreach}|{/foreach}{/template}\n", `{"l":[1,2,3]}`},
+	{"c04:ok:loops", "{namespace h}\n/** @param l */\n{template .t}{foreach $a in $l}{foreach $b in $l}{$a}{$b}{if isFirst($b)}F{/if}{if isLast($b)}L{/if}{index($b)}{ifempty}E{/foreach}{if isLast($a)}L{/if}|{ifempty}none{/foreach}{for $i in range(1, 7, 2)}{$i}{/for}{/template}\n", `{"l":[1,2,3]}`},
 }
 
 func genC04exec(g *G) {
@@ -449,7 +462,7 @@ func genC04exec(g *G) {
 				Note: fmt.Sprintf("hand#%d source=%q data=%s key=%s", hi, h.src, h.data, h.key)})
 		}
 	}
-	n := g.N(110, 2200)
+	n := g.N(300, 3000)
 	bg := newC04BundleGen(g.R)
 	progs := 0
 	for i := 0; i < n; i++ {
